@@ -279,6 +279,43 @@ var Probes = []Probe{
 			}
 			return false, ""
 		}},
+	{ID: "C07-K2", Props: []string{"C07"}, Input: "goroutine A: c.Run() of `x := hold()` where the host function hold blocks for 800 ms; goroutine B, 50 ms later: c.RunContext(ctx) on the SAME Compiled with a 100 ms deadline", WhatFail: "B returns only when A's run is over (about 650 ms after its deadline): RunContext acquires Compiled.lock with a plain Lock() before it looks at the context, so a context that ends while the call waits for the lock is not honoured until the other run releases it (an endless other run: never)",
+		Run: func() (bool, string) {
+			release := make(chan struct{})
+			sc := tengo.NewScript([]byte("x := hold()\n"))
+			_ = sc.Add("hold", &tengo.UserFunction{Name: "hold", Value: func(args ...tengo.Object) (tengo.Object, error) {
+				<-release
+				return tengo.UndefinedValue, nil
+			}})
+			c, err := sc.Compile()
+			if err != nil {
+				return false, ""
+			}
+			aDone := make(chan struct{})
+			go func() { _ = c.Run(); close(aDone) }()
+			time.Sleep(50 * time.Millisecond)
+			ctx, cancel := context.WithTimeout(context.Background(), 100*time.Millisecond)
+			defer cancel()
+			t1 := time.Now()
+			bDone := make(chan error, 1)
+			go func() { bDone <- c.RunContext(ctx) }()
+			var fails bool
+			var obs string
+			select {
+			case <-bDone: // returned while the other run still holds the lock: the context was honoured
+			case <-time.After(800 * time.Millisecond):
+				fails, obs = true, fmt.Sprintf("RunContext with a 100 ms deadline had not returned %d ms after the call, while another goroutine's Run held the lock", time.Since(t1).Milliseconds())
+			}
+			close(release)
+			<-aDone
+			if fails {
+				select {
+				case <-bDone:
+				case <-time.After(10 * time.Second):
+				}
+			}
+			return fails, obs
+		}},
 	{ID: "O44", Props: []string{"C02", "C04"}, Input: "cp := NewCompiler(...); cp.Compile(`1`); bc := cp.Bytecode(); cp.Compile(`1`) again; bc.RemoveDuplicates(); bc.FormatInstructions(); run bc", WhatFail: "Compiler.Bytecode appended OpSuspend to the compiler's own instruction buffer: compiling more code with the same Compiler overwrote the OpSuspend of the Bytecode handed out earlier, and RemoveDuplicates / FormatInstructions / a run of it read outside the instruction stream (index out of range)",
 		Run: func() (fails bool, obs string) {
 			defer func() {
